@@ -805,6 +805,20 @@ def _judge_sys(env, out, real0, real1):
     probes = out["probes"]
     probes["os_reads"] = st.reads
     probes["os_sets"] = len(st.set_log)
+    prev = env.spec["os0"]
+    for v in st.set_log:
+        if v < prev:
+            probes["os_clock_backward_jumps"] = probes.get("os_clock_backward_jumps", 0) + 1
+        elif v - prev > 10**9:
+            probes["os_clock_forward_jumps_gt_1s"] = probes.get("os_clock_forward_jumps_gt_1s", 0) + 1
+        else:
+            probes["os_clock_ticks"] = probes.get("os_clock_ticks", 0) + 1
+        if not INST_MIN <= v <= INST_MAX:
+            probes["os_clock_out_of_instant_range"] = probes.get("os_clock_out_of_instant_range", 0) + 1
+        if v < 0:
+            probes["os_clock_before_1970"] = probes.get("os_clock_before_1970", 0) + 1
+        prev = v
+    probes["os_clock_span_ns"] = st.max_ns - st.min_ns
     insts = set()
     for ti, oi, inv, ret, op, res, pre, post in env.hist:
         if op[0] == "sysinst":
